@@ -482,6 +482,7 @@ theorem ord_step {c : Cfg} {s : St} (op : Op) (h : Ord c s) : Ord c (step c s op
     have h2 := ord_rotate el (ord_open (c := c) h)
     cases hr : (rotate c (openFile c s) el).2 with
     | errRotate => simp only; exact h2
+    | errFormat => simp only; exact h2
     | ok =>
       cases hfd : (rotate c (openFile c s) el).1.fd with
       | none => simp only; exact h2
@@ -502,6 +503,7 @@ theorem ord_step {c : Cfg} {s : St} (op : Op) (h : Ord c s) : Ord c (step c s op
       · exact ord_extRename _ k h
       · exact h
     · exact h
+  | noFormat => simp only [step]; exact h
 
 theorem ord_run (c : Cfg) (ops : List Op) : ∀ s, Ord c s → Ord c (run c s ops) := by
   induction ops with
